@@ -22,6 +22,8 @@ package zkdec
 
 //@ func (*Proof).Verify
 //@   nopanic[C10]
+//@   modifies nothing
+//@   allocates
 //@   requires hash != nil && hash.h != nil && public.C != nil && public.X != nil && pkok(public.Prover) && pedok(public.Aux) && (p != nil ==> shaped(p))
 
 //@ func challenge
